@@ -1,5 +1,5 @@
 """C11 Comments, layout and listing options never affect behaviour - E-TV relational."""
-import re, random, hashlib
+import re, random, hashlib, os
 import common, runner, families, families2
 
 COMMENTS = ['/* c */', '/* "quoted" // not a line comment */', '/* #define X 1 */', '/* http://example.org/a*b */', '/**/', '/* * / */', "/* it's */"]
@@ -59,6 +59,15 @@ def perturb(src, seed, mode):
         s = '\n'.join(out)
         # keep apart what would fuse into another token: a - -b, a + +b, a & &b ...
         if re.search(r'(\+\+\+|---|&&&|\|\|\||<<<|>>>|=-|=\+|=&|=\*|=!|=~)', s): return None
+    if mode == 'dirindent':
+        s = re.sub(r'(?m)^#', '  #', src)
+    if mode == 'dirindent-tab':
+        s = re.sub(r'(?m)^#', '\t#', src)
+    if mode == 'hash-blank':
+        s = re.sub(r'(?m)^#(\w)', r'# \1', src)
+    if mode == 'macrocall-blank':
+        # a blank between the name of a function-like macro and the parenthesis of its CALL (not of its definition)
+        s = '\n'.join(l if l.lstrip().startswith('#define') else re.sub(r'\b(BAR|SUM3)\(', r'\1 (', l) for l in src.split('\n'))
     if mode == 'dirtab':
         s = re.sub(r'(?m)^(#\w+) ', r'\1\t', src)
         s = re.sub(r'(?m)^(#define\t\w+) ', r'\1\t', s)
@@ -113,7 +122,12 @@ def run(tier):
                                         ('#define FOO 1\n#ifdef FOO\nunsigned char g1;\n#else\nunsigned char g2;\n#endif\n#ifndef FOO\nunsigned char g3;\n#endif\nvoid main() { g1 = 1; }\n', ['g1']),
                                         ('#define FOO 1\n#define ZERO 0\n#if FOO\nunsigned char g1;\n#elif ZERO\nunsigned char g2;\n#endif\n#undef FOO\n#ifdef FOO\nunsigned char g3;\n#endif\n#if ZERO == 0\nunsigned char g4;\n#endif\nvoid main() { g1 = 1; g4 = 2; }\n', ['g1', 'g4'])]):
         p = TextProg('directives/%d' % k, body, [], names); p.text = (lambda sep, body=body: body); dprogs.append(p)
-    dv = lambda p: [('plain', [], None), ('layout:dirtab', [], (lambda p: perturb(p.c(), 0, 'dirtab'))), ('layout:crlf', [], (lambda p: perturb(p.c(), 0, 'crlf')))]
+    import check_c06
+    incd = os.path.join(common.CACHE, 'c06_inc'); check_c06.write_headers(incd)
+    for k, (body, names) in enumerate([('#include "h_ok.h"\n#define SUM3(a, b, c) ((a) + (b) + (c))\nunsigned char g1;\nvoid main() { g1 = SUM3(1, from_header_a, 2); from_header_b = SUM3(g1, (g1 + 1), BAR0); }\n'.replace('BAR0', '3'), ['g1', 'from_header_a', 'from_header_b']),
+                                        ('unsigned char g1;\n#ifdef NOPE\n#include "h_bad_syntax.h"\n#else\n#include "h_ok.h"\n#endif\nvoid main() { g1 = 1; from_header_a = g1; }\n', ['g1', 'from_header_a'])]):
+        p = TextProg('directives/inc%d' % k, body, [], names); p.text = (lambda sep, body=body: body); dprogs.append(p)
+    dv = lambda p: [('plain', ['-I', incd], None)] + [('layout:' + m, ['-I', incd], (lambda p, m=m: perturb(p.c(), 0, m))) for m in ('dirtab', 'crlf', 'dirindent', 'dirindent-tab', 'macrocall-blank')]
     stats, smp, results = runner.relational(rep, dprogs, dv, 'plain', args_base=['-O1'], reject_is_violation=True)
     allstats['directive-separators/-O1'] = dict(stats)
     # the spelling of multi-word type names
